@@ -2,6 +2,7 @@ package harness
 
 import (
 	"bytes"
+	"encoding/json"
 	"fmt"
 	"sort"
 
@@ -165,6 +166,18 @@ func (w *World) Stats() {
 	for _, c := range w.Colls {
 		c.AllocStats()
 		c.Name()
+		// MarshalJSON (the root location) is a read-only entry point as well
+		if _, err := json.Marshal(c); err != nil {
+			w.Fail("model", "marshal-error", "json.Marshal of a collection failed: %v", err)
+		}
+	}
+	for _, sn := range w.Snaps {
+		if sn.Closed {
+			continue
+		}
+		for _, n := range sn.St.GetCollectionNames() {
+			json.Marshal(sn.St.GetCollection(n))
+		}
 	}
 	w.logf("Stats")
 }
